@@ -19,10 +19,13 @@ PLAN = {
            # the argument given as a one-shot iterator (bounded mode: <= 1 element)
            + [("subgraph", c, "quick", 1, ("fresh", "source")) for c in ("MolGraph", "CondensedReactionGraph")]
            + [("enantiomer", "StereoMolGraph", "quick", 1, ("fresh", "source")), ("enantiomer", "StereoCondensedReactionGraph", "quick", 1, ("fresh", "source"), 4)]
+           + [("compose(g, h)", c, "quick", 1, ("fresh",), 6) for c in ("MolGraph", "CondensedReactionGraph")]
            + [("reactant", "CondensedReactionGraph", "quick", 1, ("fresh", "source"), 2), ("product", "CondensedReactionGraph", "quick", 1, ("fresh", "source"), 2)]
            + [("reactant(stereo)", "StereoCondensedReactionGraph", "quick", 1, ("fresh", "source"), 4), ("product(stereo)", "StereoCondensedReactionGraph", "quick", 1, ("fresh", "source"), 4)]
            + [("reverse_reaction", "CondensedReactionGraph", "quick", 1, ("fresh", "source"), 1), ("reverse_reaction", "StereoCondensedReactionGraph", "quick", 1, ("fresh", "source"), 3)],
     "C17": [("subgraph(any size)", c, "quick", 1, ("view", "wf")) for c in ("MolGraph", "CondensedReactionGraph")]
+           # compose of two arbitrary graphs (later wins): three loops per graph under invariants
+           + [("compose(g, h)", c, "quick", 1, ("view", "wf", "source"), 6) for c in ("MolGraph", "CondensedReactionGraph")]
            # the stereo classes add loops over the descriptor / stereo-change tables: side-car invariants, one task per loop
            + [("subgraph(any size)", "StereoMolGraph", "quick", 1, ("view", "wf"), 2), ("subgraph(any size)", "StereoCondensedReactionGraph", "quick", 1, ("view", "wf"), 4)]
            + [("subgraph", c, "quick", 1, ("view", "wf")) for c in ("MolGraph", "CondensedReactionGraph")]
@@ -103,7 +106,7 @@ def tasks(pid, tier, timeout):
 
 def functions(world, pid):
     seen, out = set(), []
-    names = {"copy": "copy", "copy_constructor": "__init__", "subgraph": "subgraph", "subgraph(any size)": "subgraph", "enantiomer": "enantiomer", "relabel_atoms(copy=True)": "relabel_atoms", "relabel_atoms(copy=False)": "relabel_atoms", "reverse_reaction": "reverse_reaction", "reactant": "reactant", "product": "product", "reactant(stereo)": "reactant", "product(stereo)": "product"}
+    names = {"copy": "copy", "copy_constructor": "__init__", "subgraph": "subgraph", "subgraph(any size)": "subgraph", "enantiomer": "enantiomer", "relabel_atoms(copy=True)": "relabel_atoms", "relabel_atoms(copy=False)": "relabel_atoms", "reverse_reaction": "reverse_reaction", "reactant": "reactant", "product": "product", "reactant(stereo)": "reactant", "product(stereo)": "product", "compose(g, h)": "compose"}
     if pid == "C06":
         out.append(src_info("stereodescriptors.py", "_StereoMixin.invert"))
     if pid == "C11":
